@@ -16,7 +16,7 @@ use std::fmt;
 /// to a specific low level type needed by instructions.
 
 /// How deep symbols may be defined through other symbols
-const MAX_SYMBOL_DEPTH: usize = 1000;
+const MAX_SYMBOL_DEPTH: usize = 100;
 
 #[derive(Clone, PartialEq, Eq, Debug)]
 pub enum Expr {
